@@ -1,6 +1,8 @@
 package main
 
 import (
+	"runtime/debug"
+	"os"
 	"fmt"
 	"go/ast"
 	"go/token"
@@ -1413,6 +1415,9 @@ func (c *FnCtx) verify() (err error) {
 			}
 			// an internal error of the generator is a tool limit for this function, never a verdict
 			msg := fmt.Sprintf("generator error: %v", r)
+			if os.Getenv("GVC_STACK") != "" {
+				msg += "\n" + string(debug.Stack())
+			}
 			c.outside = append(c.outside, msg)
 			err = fmt.Errorf("outside subset: %s", msg)
 			return
